@@ -152,6 +152,26 @@ def rule_b(ctx: Ctx) -> None:
     ctx.ob(rule, 'get_element resolves a path through schema.find(path) (wildcard step replaced by the tag)', ge.loc(), ok, '', key='get_element|find')
     ok = any(("not path or path == tag or path == f'/{tag}'", 'T') in guards(ctx, ge, n) for n in globals_)
     ctx.ob(rule, 'get_element returns the global declaration for a root-level selection', ge.loc(), ok, '', key='get_element|root')
+    # when find() lands on a declaration with another name (a substitution-group head reached through its ref particle), the
+    # element's own global declaration governs — unconditionally
+    from ..astutil import find_relations
+    rels = [(n, r) for n, r in find_relations(ge.node, lambda s_: s_ == 'xsd_element.name', lambda s_: s_ == 'tag')]
+    ok = len(rels) == 1
+    det = ''
+    if ok:
+        node, rel = rels[0]
+        ifn = [x for x in g.nodes if x.kind == 'if' and x.ast.test is node]
+        ok = len(ifn) == 1 and rel in ('!=', '==')
+        if ok:
+            lab = 'T' if rel == '!=' else 'F'
+            tgt = [m for m, l in g.succ[ifn[0]] if l == lab]
+            ok = bool(tgt) and all(m.kind == 'return' and text(m.ast.value) == 'self.maps.elements.get(tag)' for m in tgt)
+        else:
+            det = f'the name comparison is part of a larger test `{text([x for x in g.nodes if x.kind == "if" and node in list(ast.walk(x.ast.test))][0].ast.test)}`' \
+                if any(x.kind == 'if' and node in list(ast.walk(x.ast.test)) for x in g.nodes) else ''
+    ctx.ob(rule, 'get_element: a path that resolves to a declaration with a different name (substitution-group head) yields the global '
+                 'declaration of the tag, unconditionally', ge.loc(), ok, det or ('' if ok else 'the partial run would validate a substitution-group member '
+                 'with the declaration (and type) of its head'), key='get_element|name-mismatch')
     ctx.explain('C20.b: the three drivers obtain the declaration from get_element(elem.tag, schema_path, namespaces) with '
                 'schema_path defaulting to the absolute path of the selection, and report a missing declaration.')
 
